@@ -175,7 +175,11 @@ func vpDecide(c bool) bool                              { return c }
 func vpGuardedBy(root any, mu any, immutable ...string) {}
 func vpUnguard()                                        {}
 func vpLockEvents(reset bool) int                       { return 0 }
+// vpOneCriticalSection: since the last call / vpLockEvents(true) the guarded mutex
+// was acquired and released exactly once (engine); natively there is no monitor.
+func vpOneCriticalSection() bool                         { return true }
 func vpSelectFirst(on bool)                             {}
+func vpBlockedIsViolation(label string)                  {}
 func vpYield()                                          {}
 func vpIsOpaqueStr(s string) bool                       { return false }
 func vpNote(s string)                                   { vpObs = append(vpObs, s) }
